@@ -4,6 +4,9 @@ Line-protocol handlers of the stream `dbc` (token-level DBC writer/parser model)
   dbc write <hex 0|1> <file-json>            → <tokens-json>
   dbc parse <hex 0|1> <tokens-json> [ignored…] → ok <file-json> | err
   dbc scan x<hex-bytes>                      → kind:<hex-value>@line:col,… (`Scan.scanAll` = VerifScan)
+  dbc chainok x<hex-bytes> [ignored…]        → ok <n> | bad <i> | error   (the text cut into tokens and
+      separators by `Scan.scanItemsAll`; `Scan.chainOK` of the n tokens, or the index of the first
+      pair that may merge, or `error` when the scan ends with an error token)
 
 * The JSON payloads contain NO blank (the harness escapes every blank inside JSON strings as
   the escape `\u0020`), because the driver splits a line at blanks.
@@ -19,6 +22,7 @@ import Acme.Core.Dbc
 import Acme.Core.DbcWrite
 import Acme.Core.DbcParse
 import Acme.Core.DbcScan
+import Acme.Spec.DbcScan
 
 namespace Acme.Driver.DbcD
 open Lean (Json)
@@ -386,9 +390,40 @@ def handleScan (payload : String) : String :=
     | none => "bad-op hex"
   | _ => "bad-op hex"
 
+/-- the tokens of a scan (spaces included) as `(token, separator behind it)`; `none` when the
+scan ends with an error token.  A NUL-`eof` token ends the list like the real `eof`. -/
+def chainOfScan : List Scan.PTok → Option (List (Token × String))
+  | [] => some []
+  | t :: rest =>
+    match t.kind with
+    | .error => none
+    | .eof => some []
+    | .space => chainOfScan rest
+    | _ =>
+      let sep := match rest with
+        | s :: _ => if s.kind = .space then String.ofList s.raw else ""
+        | [] => ""
+      (chainOfScan rest).map ((t.tok, sep) :: ·)
+
+def handleChainOK (payload : String) : String :=
+  match payload.toList with
+  | 'x' :: hs =>
+    match unhex hs with
+    | some bs =>
+      match chainOfScan (Scan.scanItemsAll (Scan.decode bs)) with
+      | none => "error"
+      | some l =>
+        if Scan.chainOK l then "ok " ++ toString l.length
+        else match Scan.firstBadPair 0 l with
+          | some i => "bad " ++ toString i
+          | none => "bad ?"
+    | none => "bad-op hex"
+  | _ => "bad-op hex"
+
 def handle (args : List String) : String :=
   match args with
   | "scan" :: payload :: _ => handleScan payload
+  | "chainok" :: payload :: _ => handleChainOK payload
   | "write" :: h :: payload :: _ =>
     match hexFlag h with
     | some hex => handleWrite hex payload
